@@ -59,6 +59,6 @@ rm -rf "$D"
 
 # merge into the evidence file
 if [ -f "$EV" ] && [ "$EV" != "/dev/null" ]; then
-  tmp=$(mktemp); jq --argjson legs "$legs" '.coverage.sanitizer_legs = $legs' "$EV" > "$tmp" && mv "$tmp" "$EV"
+  tmp=$(mktemp); jq --argjson legs "$legs" '.coverage.sanitizer_legs = ((.coverage.sanitizer_legs // {}) + $legs)' "$EV" > "$tmp" && mv "$tmp" "$EV"
 fi
 exit $rc
